@@ -10,6 +10,25 @@ CLAIMED = {
    "SSA symbolic execution + SMT (z3), native replay of counterexamples"),
 }
 
+CLAIMED.update({
+ "C08": ("DESIGN.md 5/C08",
+   "CollectionChange.include, ReadRequest.Exclude executed symbolically for an UNINTERPRETED predicate P(id,value) (Ackermann-encoded), arbitrary ids/values and all change kinds: delivered edit equals the edit of the filtered collection. One step from an arbitrary view gives histories by induction.",
+   "Trusted: symgo, z3. The Pull goroutine around include and List's itemSlice are covered under C04/C01 harnesses when present; here the decision kernel.",
+   "SSA symbolic execution + SMT with uninterpreted predicate, native replay"),
+ "C09": ("DESIGN.md 5/C09",
+   "mergeChanges executed symbolically on arbitrary consecutive valid changes (2 and 3 in a row) of one id against an arbitrary view: fold equivalence, old-value chaining, kind validity, last-seed or-ing.",
+   "Trusted: symgo, z3. Timing clause (writers complete without waiting) is outside the claim.",
+   "SSA symbolic execution + SMT, native replay"),
+ "C16": ("DESIGN.md 5/C16",
+   "cmp combinators with arbitrary (symbolic) comparer answers; FloatValueApprox in IEEE float64 (reflexive, symmetric), DurationValueWithin/TimeValueWithin on full 64-bit nanosecond values against a no-overflow reference; own-kind-only clause over the protobuf reflection model.",
+   "Trusted: symgo + protobuf model over generated structs (validated by native replay), IEEE identities |x-y|=|y-x| and commutativity of math.Min/Max used for canonicalisation, durationpb/timestamppb ghost nanoseconds; instants within +-2^62 ns. Unknown fields outside the claim.",
+   "SSA symbolic execution + SMT (FP and BV theories), native replay"),
+ "C17": ("DESIGN.md 5/C17",
+   "group.Execute for every strategy x 0..3 (thorough 4) members x symbolic success flags x every completion order (scheduler choices explored exhaustively with sleep-set reduction): thresholds, result placement, error identity, no panic, no leaked goroutine.",
+   "Trusted: symgo concurrency runtime (goroutines, channels, WaitGroup, context), z3; DRF between sync operations. Trait-level Group servers outside.",
+   "SSA symbolic execution with symbolic scheduler + SMT, native replay"),
+})
+
 NOT_YET = {}
 
 NA = {
